@@ -291,6 +291,7 @@ def run_property(spec: Spec, tier: str, seed: int, jobs: int, only=None, verbose
             for c in h.cubes(tier):
                 todo.append((h, c, ""))
         hmap = {h.name: h for h in harnesses}
+        todo.sort(key=lambda it: -(it[1].get("_w", 1) * it[0].timeout[tier]))  # longest jobs first
 
         def run_one(item):
             h, c, sup = item
